@@ -97,7 +97,7 @@ def relocate_to_radial_minimum(func):
             if hasattr(grid, "with_new_array"):
                 moved_grid = grid.with_new_array(moved_grid)
 
-        moved_grid[np.isnan(np.array(moved_grid))] = grid_radial_minimum
+        moved_grid[np.isnan(np.array(moved_grid))] = grid_radial_minimum / np.sqrt(2.0)
 
         return func(obj, moved_grid, *args, **kwargs)
 
